@@ -881,6 +881,13 @@ class Run:
             rd = self.rdef(a.get('kind', 'widgets'))
             c.replace_fields(rd, a.get('ns', 'default'), a['name'], _EDITS[a['edit']](a),
                              actor=a.get('actor', 'user'), subresource=a.get('sub'))
+        elif do == 'copy-annotations':
+            # what the deployment controller does on a rollout: the owner's annotations are copied onto the owned
+            src = c.get(self.rdef(a['from_kind']), a.get('ns', 'default'), a['from_name'])
+            if src is not None:
+                anns = dict((src.get('metadata') or {}).get('annotations') or {})
+                c.patch(self.rdef(a['kind']), a.get('ns', 'default'), a['name'], {'metadata': {'annotations': anns}},
+                        content_type='application/merge-patch+json', actor=a.get('actor', 'deployment-controller'))
         elif do == 'recreate':
             # delete (force: strip finalizers) and create anew under the same name
             rd = self.rdef(a.get('kind', 'widgets'))
